@@ -225,12 +225,23 @@ func verifyCertificateSignature(
 
 	switch pubKey := certificate.PublicKey.(type) {
 	case ed25519.PublicKey:
+		if signatureAlgorithm != signature.Ed25519 {
+			return dtlserrors.ErrInvalidSignatureAlgorithm
+		}
 		if ok := ed25519.Verify(pubKey, message, remoteKeySignature); !ok {
 			return dtlserrors.ErrKeySignatureMismatch
 		}
 
 		return nil
 	case *ecdsa.PublicKey:
+		// The claimed scheme must be an ECDSA one with a real hash function:
+		// an empty digest can be "signed" by anyone who knows the public key.
+		if signatureAlgorithm != signature.ECDSA {
+			return dtlserrors.ErrInvalidSignatureAlgorithm
+		}
+		if hashAlgorithm.CryptoHash() == crypto.Hash(0) {
+			return dtlserrors.ErrInvalidHashAlgorithm
+		}
 		ecdsaSig := &ecdsaSignature{}
 		if _, err := asn1.Unmarshal(remoteKeySignature, ecdsaSig); err != nil {
 			return err
@@ -245,6 +256,12 @@ func verifyCertificateSignature(
 
 		return nil
 	case *rsa.PublicKey:
+		if signatureAlgorithm != signature.RSA && !signatureAlgorithm.IsPSS() {
+			return dtlserrors.ErrInvalidSignatureAlgorithm
+		}
+		if hashAlgorithm.CryptoHash() == crypto.Hash(0) {
+			return dtlserrors.ErrInvalidHashAlgorithm
+		}
 		hashed := hashAlgorithm.Digest(message)
 
 		// Use RSA-PSS verification if the signature algorithm is PSS
